@@ -707,6 +707,28 @@ pub fn on_deref(addr: usize) {
     }
 }
 
+thread_local! {
+    static SPEC_ROOTS: RefCell<Vec<Object>> = RefCell::new(Vec::new());
+}
+
+/// vm.rs, immediately before every collection: everything the property counts as a root at this point (operand
+/// stack with the locals of all active calls and pending operands, constants, globals, the last statement's
+/// value, the value being returned) — stated independently of the root sets the VM hands to GC::run
+pub fn gc_spec_roots(roots: &[&[Object]]) {
+    SPEC_ROOTS.with(|r| {
+        let mut r = r.borrow_mut();
+        r.clear();
+        for s in roots {
+            r.extend_from_slice(s);
+        }
+    });
+}
+
+/// the roots recorded by the last `gc_spec_roots` (emptied by the call)
+pub fn take_spec_roots() -> Vec<Object> {
+    SPEC_ROOTS.with(|r| std::mem::take(&mut *r.borrow_mut()))
+}
+
 /// gc.rs: around collections
 pub fn gc_event(phase: GcPhase, roots: &[&[Object]], managed: &[Object]) {
     let cb = with(|s| s.gc_cb.take());
